@@ -8,7 +8,7 @@ CONSTANTS
   DnsPort = {2, 8}
   Allowed = {1, 2}
   T = 2
-  DNST = 3
+  DNST = 4
   Slack = 0
   Bound = 0
   MaxAssoc = 12
